@@ -1,20 +1,23 @@
 """
 stream `crypto` (C08): KeyFile.encrypt / KeyFile.decrypt under every method, with a recorded os.urandom,
-compared byte for byte with Crypto.v (`run_crypto`).  The model computes PKCS7 and the CBC chaining
-itself; the only thing it is told is the table of single 16-byte AES block results, which the harness
-obtains from `cryptography`'s AES-ECB directly (never through cincoconfig).
+compared byte for byte with Crypto.v + Aes.v (`run_crypto_aes`).  The model computes everything itself:
+IV layout, PKCS7, the CBC chaining AND the AES-256 block function (coq/theories/Aes.v, whose inverse law
+is proved in AesLemmas.v); nothing but key, IV and text is given to it.  (Until the Gallina AES existed
+the model was handed a per-case table of single-block results of `cryptography`'s AES-ECB:
+`Crypto.run_crypto`, still in Crypto.v.)  The oracle keeps an independent CBC/PKCS7 recomputation over
+`cryptography`'s AES-ECB and the openssl command line.
 """
 import os
 import shutil
 import subprocess
 import tempfile
 
-from common import g_bytes, g_list, Broken
+from common import g_bytes, Broken
 
 NAME = "crypto"
-IMPORTS = "From Cinco Require Import Base Crypto."
-RUN = "run_crypto"
-CASE_TYPE = "(bytes * tbl * tbl * cop)"
+IMPORTS = "From Cinco Require Import Base Crypto Aes."
+RUN = "run_crypto_aes"
+CASE_TYPE = "(bytes * cop)"
 GM = {"xor": "CXor", "aes": "CAes", "best": "CBest", "bogus": "CBogus"}
 LENS = [0, 1, 15, 16, 17, 31, 32, 33, 47, 48, 64, 100]
 
@@ -53,15 +56,6 @@ def enc_table(key, iv, pt):
         prev = c
         out += c
     return table, out
-
-
-def dec_table(key, ct):
-    body = ct[16:]
-    table = []
-    for i in range(0, len(body) - len(body) % 16, 16):
-        blk = body[i:i + 16]
-        table.append((blk, block_d(key, blk)))
-    return table
 
 
 def generate(rng, tier):
@@ -105,13 +99,9 @@ def generate(rng, tier):
 
 
 def gcase(c):
-    def gt(t):
-        return g_list(t, lambda p: "(%s,%s)" % (g_bytes(p[0]), g_bytes(p[1])))
     if c["op"] == "enc":
-        et = enc_table(c["key"], c["iv"], c["pt"])[0] if c["method"] in ("aes", "best") else []
-        return "(%s, %s, [], CEnc %s %s %s)" % (g_bytes(c["key"]), gt(et), GM[c["method"]], g_bytes(c["iv"]), g_bytes(c["pt"]))
-    dt = dec_table(c["key"], c["ct"]) if c["method"] in ("aes", "best") and len(c["ct"]) >= 32 else []
-    return "(%s, [], %s, CDec %s %s)" % (g_bytes(c["key"]), gt(dt), GM[c["method"]], g_bytes(c["ct"]))
+        return "(%s, CEnc %s %s %s)" % (g_bytes(c["key"]), GM[c["method"]], g_bytes(c["iv"]), g_bytes(c["pt"]))
+    return "(%s, CDec %s %s)" % (g_bytes(c["key"]), GM[c["method"]], g_bytes(c["ct"]))
 
 
 def _errkind(e):
